@@ -259,12 +259,6 @@ func textREFind(args ...tengo.Object) (ret tengo.Object, err error) {
 		return
 	}
 
-	re, err := regexp.Compile(s1)
-	if err != nil {
-		// the Go error is the result value, not a run-time error
-		return wrapError(err), nil
-	}
-
 	s2, ok := tengo.ToString(args[1])
 	if !ok {
 		err = tengo.ErrInvalidArgumentType{
@@ -273,6 +267,25 @@ func textREFind(args ...tengo.Object) (ret tengo.Object, err error) {
 			Found:    args[1].TypeName(),
 		}
 		return
+	}
+
+	i3 := 0
+	if numArgs == 3 {
+		i3, ok = tengo.ToInt(args[2])
+		if !ok {
+			err = tengo.ErrInvalidArgumentType{
+				Name:     "third",
+				Expected: "int(compatible)",
+				Found:    args[2].TypeName(),
+			}
+			return
+		}
+	}
+
+	re, err := regexp.Compile(s1)
+	if err != nil {
+		// the Go error is the result value, not a run-time error
+		return wrapError(err), nil
 	}
 
 	if numArgs < 3 {
@@ -299,15 +312,6 @@ func textREFind(args ...tengo.Object) (ret tengo.Object, err error) {
 		return
 	}
 
-	i3, ok := tengo.ToInt(args[2])
-	if !ok {
-		err = tengo.ErrInvalidArgumentType{
-			Name:     "third",
-			Expected: "int(compatible)",
-			Found:    args[2].TypeName(),
-		}
-		return
-	}
 	m := re.FindAllStringSubmatchIndex(s2, i3)
 	if m == nil {
 		ret = tengo.UndefinedValue
